@@ -12,6 +12,7 @@ pub struct Ctx {
     pub cases: BufWriter<File>,
     pub imp: BufWriter<File>,
     pub oracle: BufWriter<File>,
+    pub hashes: BufWriter<File>,
     pub stats: BTreeMap<String, u64>,
     pub samples: Vec<String>,
     pub distinct: std::collections::HashSet<u64>,
@@ -30,6 +31,7 @@ impl Ctx {
             cases: f("cases.txt"),
             imp: f("impl.txt"),
             oracle: f("oracle.txt"),
+            hashes: f("hashes.txt"),
             stats: BTreeMap::new(),
             samples: vec![],
             distinct: Default::default(),
@@ -54,6 +56,14 @@ impl Ctx {
     pub fn impl_line(&mut self, s: &str) {
         writeln!(self.imp, "{s}").unwrap();
     }
+    /// hash of the encoded bytes of a case (compared across processes by the C04 check)
+    pub fn hash_line(&mut self, fam: &str, case: u64, bytes: &[u8]) {
+        let mut h: u64 = 1469598103934665603;
+        for b in bytes {
+            h = (h ^ *b as u64).wrapping_mul(1099511628211);
+        }
+        writeln!(self.hashes, "{fam} {case} {} {h:016x}", bytes.len()).unwrap();
+    }
     pub fn ok(&mut self, fam: &str, case: u64) {
         writeln!(self.oracle, "OK {fam} {case}").unwrap();
     }
@@ -75,6 +85,7 @@ impl Ctx {
         self.cases.flush().unwrap();
         self.imp.flush().unwrap();
         self.oracle.flush().unwrap();
+        self.hashes.flush().unwrap();
         let mut s = String::from("{\n");
         s.push_str(&format!("  \"distinct_cases\": {},\n", self.distinct.len()));
         s.push_str("  \"samples\": [");
